@@ -41,7 +41,7 @@ ASSUMPTIONS = [
 ]
 PROBES = ["H_runs", "H_ops", "H_probes_after_change", "H_cli_ops", "H_bulk_ops", "H_show_save_ops", "H_slot_reuse", "H_repeat_same_op", "H_alias_family_ops", "H_bulk_position_probes", "H_flood_ops", "H_heavy_distinct_fix_ops",
           "T_runs", "T_threads", "T_ops", "T_steps", "T_switches", "T_hot_line_hits", "T_switch_in_optimisation", "T_mode_different",
-          "T_mode_same", "T_mode_shared_object", "T_runs_with_switch_inside_call", "P_runs", "P_ops", "P_interpreters"]
+          "T_mode_same", "T_mode_shared_object", "T_runs_with_switch_inside_call", "T_shared_object_first_touch_in_threads", "P_runs", "P_ops", "P_interpreters"]
 
 
 # ---------------------------------------------------------------------------
@@ -223,6 +223,8 @@ def generate(rseed, tier, idx):
             clients = [copy.deepcopy(ops) for _ in range(nthreads)]
         else:
             t, b, large = _pair(g, cheap=True)
+            if g.random() < 0.3:
+                t = enc(gen.spell_alpha(g, gen.rand_rgb(g), 0.5, g.choice(gen.ALPHA_SPELLINGS))[0])
             for _ in range(nthreads):
                 cl = []
                 for _ in range(g.randint(1, 3)):
@@ -235,6 +237,7 @@ def generate(rseed, tier, idx):
               "mean_gap": s.choice((50, 500, 5000, 50000)), "p_hot": s.choice((0.0, 0.2, 0.6)), "schedule": None}
         if sharing == "shared-object":
             tr["shared"] = {"t": t, "b": b, "large": large}
+            tr["shared_untouched"] = g.random() < 0.6
         return tr
     ops = [_pure_op(g) for _ in range(8)]
     return {"prop": ID, "engine": "P", "ops": ops, "hashseeds": [g.randrange(1, 1 << 31), 0]}
@@ -421,8 +424,18 @@ def _exec_T(trace):
     ctx = apiops.Ctx()
     state0 = None
     if trace.get("shared"):
-        apiops.run_op(dict(op="newpair", slot=0, **trace["shared"]), ctx)
-        state0 = apiops._pair_state(ctx.slots[0])
+        if trace.get("shared_untouched"):
+            # the shared object is only CONSTRUCTED here; its first query happens inside the threads
+            from cm_colors import ColorPair
+
+            ctx.slots[0] = ColorPair(dec(trace["shared"]["t"]), dec(trace["shared"]["b"]), trace["shared"].get("large", False))
+            ctx.slot_spec[0] = trace["shared"]
+            twin = ColorPair(dec(trace["shared"]["t"]), dec(trace["shared"]["b"]), trace["shared"].get("large", False))
+            state0 = apiops._pair_state(twin)
+            bump("T_shared_object_first_touch_in_threads")
+        else:
+            apiops.run_op(dict(op="newpair", slot=0, **trace["shared"]), ctx)
+            state0 = apiops._pair_state(ctx.slots[0])
     results = [[None] * len(cl) for cl in clients]
 
     def mk(i):
